@@ -313,7 +313,8 @@ class FlatSet : private Compare {
   template <class K, typename std::enable_if<!std::is_same<T, K>::value && has_is_transparent<Compare>::value,
                                              bool>::type = true>
   size_type count(const K &k) const {
-    return contains(k);
+    // A heterogeneous key may be equivalent to several elements
+    return static_cast<size_type>(upper_bound(k) - lower_bound(k));
   }
 #endif
 
